@@ -262,7 +262,7 @@ impl Prop for C08 {
         let n = payload.len();
         let (style, trace) = gen_trace(rng, n.min(2048), n, &[], &opts);
         let nb = rng.usize(0, 5);
-        let buf_sizes = (0..nb).map(|_| *rng.pick(&[0u32, 1, 1, 2, 7, 64, 8192, 65536])).collect::<Vec<_>>();
+        let buf_sizes = (0..nb).map(|_| *rng.pick(&[0u32, 1, 1, 2, 7, 64, 4095, 4096, 4097, 8192, 8193, 65536])).collect::<Vec<_>>();
         let buf_sizes = if buf_sizes.iter().all(|&s| s == 0) { vec![] } else { buf_sizes };
         let cancel_every = if consumer == Consumer::Async && rng.chance(1, 3) { rng.range(1, 3) as u8 } else { 0 };
         Case { msg, payload, kind, consumer, spec: SourceSpec { trace, fault: None }, style: STYLES[style].to_string(), buf_sizes, cancel_every }
